@@ -185,8 +185,12 @@ class Ref:
 
 
 def all_ends(ast, s, flags, i, budget=200000):
-    r = Ref(s, flags, budget)
-    return sorted({j for j, _ in r.m(ast, i, {})})
+    """all end positions from i, or None when the exploration budget is exhausted"""
+    try:
+        r = Ref(s, flags, budget)
+        return sorted({j for j, _ in r.m(ast, i, {})})
+    except (TimeoutError, RecursionError):
+        return None
 
 
 def is_match(ast, s, flags, budget=300000):
